@@ -28,18 +28,25 @@ Verdict(C, T0) ==
   ELSE IF ~LevelsOK(C) THEN Fail(FALSE, "LevelsOK", -1, -1)
   ELSE IF ~MeshesWellFormed(C) THEN Fail(FALSE, "MeshesWellFormed", -1, -1)
   ELSE UNION {UNION {LevelFails(C, l, lv, T0) : lv \in Levels(C, l)} : l \in 0..(NLayers(C) - 1)}
+       \cup UNION {Fail(NbrRanksAreLayerRanks(C, l), "NbrRanksAreLayerRanks", l, -1) : l \in 0..(NLayers(C) - 1)}
+       \cup UNION {Fail(NbrsEqualHaloRanks(C, l), "NbrsEqualHaloRanks", l, -1) : l \in 0..(NLayers(C) - 1)}
+       \cup UNION {Fail(NbrsSymmetric(C, l), "NbrsSymmetric", l, -1) : l \in 0..(NLayers(C) - 1)}
        \cup UNION {Fail(ChildrenPartitionParent(C, l), "ChildrenPartitionParent", l, PartLevel(C, l)) : l \in 1..(NLayers(C) - 1)}
        \cup Fail(SiblingsOK(C), "SiblingsOK", -1, -1)
        \cup Fail(AncestryOK(C), "AncestryOK", -1, -1)
 
 \* coverage information: neighbour pairs of the finest layer, pairs touching in one vertex only, pairs of different parents
 Info(C, T) ==
-  IF ~(LayerShapeOK(C) /\ LevelsOK(C) /\ MeshesWellFormed(C)) THEN [pairs |-> 0, single |-> 0, cross |-> 0, layers |-> 0, levels |-> 0]
+  IF ~(LayerShapeOK(C) /\ LevelsOK(C) /\ MeshesWellFormed(C)) THEN [pairs |-> 0, single |-> 0, cross |-> 0, layers |-> 0, levels |-> 0, shifted |-> 0, groups |-> 0]
   ELSE LET X == {ab \in Members(C, 0) \X Members(C, 0) : ab[1] < ab[2] /\ Touch(T, ab[1], ab[2])}
        IN [pairs |-> Cardinality(X),
            single |-> Cardinality({ab \in X : Cardinality(T[ab[1]][1] \cap T[ab[2]][1]) = 1}),
            cross |-> IF NLayers(C) < 2 THEN 0 ELSE Cardinality({ab \in X : ab[1] \div Stride(C, 1) # ab[2] \div Stride(C, 1)}),
            layers |-> NLayers(C),
+           \* processes in a progeny group with non-zero offset that have a sibling as neighbour (all layers); largest number of
+           \* progeny groups of a layer
+           shifted |-> FoldSeq(LAMBDA l, acc : acc + ShiftedSiblingNeighbours(C, l - 1), 0, [l \in 1..NLayers(C) |-> l]),
+           groups |-> IF NLayers(C) < 2 THEN 1 ELSE Max({LayerProcs(C)[l + 1] : l \in 1..(NLayers(C) - 1)}),
            levels |-> FoldSeq(LAMBDA l, acc : acc + Cardinality(Levels(C, l - 1)), 0, [l \in 1..NLayers(C) |-> l])]
 
 \* T0 = the entity table of the finest level of layer 0 (only evaluated - lazily - once the shape predicates hold)
